@@ -17,6 +17,7 @@ def dispatch (line : String) : Ans :=
   | "lookup" :: r => handleLookup r
   | "gen" :: r => handleLookup r
   | "zob" :: r => handleZob r
+  | "magicgen" :: r => handleMagicGen r
   | "pos" :: r => handlePos r
   | "fen" :: r => handleFen r
   | "mgiter" :: r => handleIter2 r
